@@ -21,10 +21,9 @@ package kernel
 //@   ensures forall i int :: 0 <= i && i < len(result0.Snapshots) ==> result0.Snapshots[i] != nil
 //@ assume func (node *Node) CheckBroadcastedToPeers
 //@   modifies nothing
-//@ assume func (recv storage.Store) ReadRound(hash)
-//@   -- a round that is referenced by the head round exists: a successful read returns it
-//@   modifies nothing
-//@   ensures err == nil ==> result0 != nil
+//@ -- (storage.Store).ReadRound: ONE contract, in storage/zz_contracts_c20_verif.go (a duplicate here shadowed it and, claiming
+//@ -- `err == nil ==> result0 != nil`, made the "round not collected yet" paths of kernel/graph.go unreachable: ReadRound returns (nil, nil)
+//@ -- for an absent round). "The round referenced by the head round exists" is the precondition [ext-known] of prepareAnnouncement below.
 //@ assume func (chain *Chain) determineBestRound
 //@   modifies nothing
 //@ assume func (chain *Chain) updateEmptyHeadRoundAndPersist
